@@ -28,9 +28,13 @@ const (
 )
 
 type c17Op struct {
-	kind byte // 'G' get, 'U' use, 'R' return
+	kind byte // 'G' get, 'U' use, 'R' return, 'S' idle period (simulated time passes)
 	arg  int
 }
+
+// idle periods of a caller, in simulated time (index 0 unused). All are below the scheduler's one-hour
+// block-detection timer.
+var c17Idle = []time.Duration{0, time.Millisecond, time.Second, 9 * time.Second, 11 * time.Second, time.Minute, 10 * time.Minute, 45 * time.Minute}
 
 type poolIn struct {
 	get bool
@@ -272,6 +276,10 @@ func runC17(ch *Choices, cfg *RunCfg) (o *Outcome) {
 	if faultsOn {
 		abandonP = ch.Intn(40, "abandonp")
 	}
+	// the clock: in a third of the runs callers have idle periods, i.e. simulated time jumps between
+	// operations (the bubble's fake clock; the pool may keep time stamps, expire or refresh objects)
+	clockOn := ch.Intn(3, "clock.on") == 1
+	idles := 0 // idle periods scripted (counted here, by the generating goroutine)
 	// scripts
 	scripts := make([][]c17Op, ntasks)
 	total := 0
@@ -280,6 +288,11 @@ func runC17(ch *Choices, cfg *RunCfg) (o *Outcome) {
 		held := 0
 		nops := ch.Range(1, 8, "script.len")
 		for i := 0; i < nops && total < maxOps; i++ {
+			if clockOn && ch.Intn(4, "idle?") == 1 {
+				// simulated time passes before the next operation (an idle period of the caller)
+				scripts[t] = append(scripts[t], c17Op{'S', 1 + ch.Intn(len(c17Idle)-1, "idle.len")})
+				idles++
+			}
 			var k int
 			if held == 0 {
 				k = 0
@@ -411,6 +424,11 @@ func runC17(ch *Choices, cfg *RunCfg) (o *Outcome) {
 					ever = append(ever, x)
 					heldObjs[t.ID] = ever
 					t.Emit(evGetRet, objID(x), nil)
+				case 'S':
+					// only this task runs, every other goroutine of the bubble is parked: the fake clock
+					// jumps by the whole period at once
+					time.Sleep(c17Idle[op.arg])
+					t.Yield()
 				case 'U':
 					if useReal {
 						if msg := c17Use(sh, held[op.arg]); msg != "" {
@@ -511,6 +529,7 @@ func runC17(ch *Choices, cfg *RunCfg) (o *Outcome) {
 	o.Fingerprint = s.fp.Sum()
 	o.Nontrivial = s.Switches > 0 || s.Stalls > 0 || abandons > 0
 	o.Faults["task stalled"] += s.Stalls
+	o.Faults["clock jump (caller idle for 1 ms .. 45 min of simulated time)"] += idles
 	o.Faults["holder abandoned its objects (never returns them)"] += abandons
 	o.Faults["task waited for a library lock held by a preempted task"] += s.LockWaits
 	o.Faults["context switch inside the library"] += s.Switches
